@@ -1216,6 +1216,15 @@ def main(repo: str, outdir: str, dry: bool = False) -> int:
     def f_dispatch():
         return (HEADER + "namespace Optyx.Generated\n\n" + gen_dispatch(src("problem.py")) + "\nend Optyx.Generated\n")
 
+    def f_degstep():
+        import py2lean
+        try:
+            body = py2lean.gen_degree_step(src("analysis.py"))
+        except py2lean.TranslateError as e:
+            raise TranslateError(str(e))
+        return (HEADER + "import Optyx.Py.StepSupport\n\nset_option linter.unusedVariables false\n\n"
+                "namespace Optyx.Generated\nopen Optyx Optyx.Py\n\n" + body + "\nend Optyx.Generated\n")
+
     def f_sort():
         return HEADER + "namespace Optyx.Generated\n\n" + gen_sort_glue(repo) + "\nend Optyx.Generated\n"
 
@@ -1234,7 +1243,8 @@ def main(repo: str, outdir: str, dry: bool = False) -> int:
     changed, errors, h = False, {}, hashlib.sha256()
     for fname, make in (("GradRules", f_rules), ("Tables", f_tables), ("Closures", f_closures), ("SolverGlue", f_glue),
                         ("JacRow", f_jacrow), ("InitPoint", f_init), ("Dispatch", f_dispatch),
-                        ("ApiGlue", f_apiglue), ("LPGlue", f_lpglue), ("SortGlue", f_sort)):
+                        ("ApiGlue", f_apiglue), ("LPGlue", f_lpglue), ("SortGlue", f_sort),
+                        ("DegreeStep", f_degstep)):
         path = os.path.join(outdir, fname + ".lean")
         try:
             text = make()
